@@ -237,3 +237,9 @@ Fixpoint unquote_bytes (s : bytes) : bytes :=
   end.
 
 Definition path_to_uri (path : str) : bytes := s2l "file://" ++ uri_quote path.
+
+(* path_from_uri on a file:// URI, before Path.resolve (the identity on canonical absolute
+   POSIX paths): strip the scheme, percent-decode; None stands for the os.path.abspath branch *)
+Definition uri_scheme : bytes := s2l "file://".
+Definition path_from_uri (uri : bytes) : option bytes :=
+  if prefixb uri_scheme uri then Some (unquote_bytes (skipn (List.length uri_scheme) uri)) else None.
